@@ -9,7 +9,6 @@ import (
 	"path/filepath"
 	"strconv"
 	"strings"
-	"sync"
 	"time"
 
 	"qeepverif/internal/sym"
@@ -23,51 +22,42 @@ type SymWitness struct {
 	Detail string    `json:"detail"`
 }
 
-// ReplaySym executes every generated case with nAssign assignments of its
-// symbols on the real library, in parallel, and classifies the outcomes.
+// ReplaySym executes every generated case with nAssign assignments of its symbols on the real library - in worker
+// processes, each strictly sequential (farm.go) - and classifies the outcomes.
 func (c *Ctx) ReplaySym(files []string, nAssign int) error {
-	type job struct {
-		idx  int
-		line []byte
-	}
-	jobs := make(chan job, 64)
-	sym.InstallGradMagSink()
-	defer sym.RemoveGradMagSink()
-	var wg sync.WaitGroup
-	var firstErr error
-	var emu sync.Mutex
-	for w := 0; w < 16; w++ {
-		wg.Add(1)
-		go func() {
-			defer wg.Done()
-			for j := range jobs {
-				var cs sym.Case
-				if err := json.Unmarshal(j.line, &cs); err != nil {
-					emu.Lock()
-					if firstErr == nil {
-						firstErr = Brokenf("generated case %d does not parse: %v", j.idx, err)
-					}
-					emu.Unlock()
-					continue
-				}
-				c.runSymCase(&cs, j.idx, nAssign)
-			}
-		}()
-	}
+	jobs := make(chan []byte, 64)
 	idx := 0
-	err := ReadLines(files, func(line []byte) error {
-		cp := append([]byte(nil), line...)
-		jobs <- job{idx, cp}
-		idx++
-		return nil
-	})
-	close(jobs)
-	wg.Wait()
+	var rerr error
+	go func() {
+		defer close(jobs)
+		rerr = ReadLines(files, func(line []byte) error {
+			j, _ := json.Marshal(symJob{Idx: idx, N: nAssign, Case: append([]byte(nil), line...)})
+			jobs <- j
+			idx++
+			return nil
+		})
+	}()
+	describe := func(job []byte) string {
+		var j symJob
+		var cs sym.Case
+		json.Unmarshal(job, &j)
+		json.Unmarshal(j.Case, &cs)
+		return fmt.Sprintf("%s %s (case %d)", cs.Fam, cs.Name, j.Idx)
+	}
+	witness := func(job []byte) any {
+		var j symJob
+		json.Unmarshal(job, &j)
+		var cs sym.Case
+		json.Unmarshal(j.Case, &cs)
+		env := sym.Assign(&cs, rand.New(rand.NewSource(c.Seed*1000003+int64(j.Idx))), 0)
+		return SymWitness{Case: &cs, Assign: env, Detail: "the process died or hung while executing this case (first assignment shown)"}
+	}
+	err := c.Farm([]string{"sym", fmt.Sprint(c.Seed)}, jobs, 10*time.Minute, describe, witness)
 	if err != nil {
 		return err
 	}
-	if firstErr != nil {
-		return firstErr
+	if rerr != nil {
+		return rerr
 	}
 	if idx == 0 {
 		return Brokenf("the generator produced no cases")
@@ -76,8 +66,36 @@ func (c *Ctx) ReplaySym(files []string, nAssign int) error {
 	return nil
 }
 
-func (c *Ctx) runSymCase(cs *sym.Case, idx, nAssign int) {
-	rng := rand.New(rand.NewSource(c.Seed*1000003 + int64(idx)))
+type symJob struct {
+	Idx  int             `json:"idx"`
+	N    int             `json:"n"`
+	Case json.RawMessage `json:"case"`
+}
+
+// SymWorker is the body of "qv worker sym <seed>".
+func SymWorker(args []string) int {
+	var seed int64
+	if len(args) > 0 {
+		fmt.Sscanf(args[0], "%d", &seed)
+	}
+	sym.InstallGradMagSink()
+	return WorkerMain(func(job []byte, r *Recorder) {
+		var j symJob
+		if err := json.Unmarshal(job, &j); err != nil {
+			r.Broken(fmt.Sprintf("job does not parse: %v", err))
+			return
+		}
+		var cs sym.Case
+		if err := json.Unmarshal(j.Case, &cs); err != nil {
+			r.Broken(fmt.Sprintf("generated case %d does not parse: %v", j.Idx, err))
+			return
+		}
+		runSymCase(r, seed, &cs, j.Idx, j.N)
+	})
+}
+
+func runSymCase(c *Recorder, seed int64, cs *sym.Case, idx, nAssign int) {
+	rng := rand.New(rand.NewSource(seed*1000003 + int64(idx)))
 	key := cs.Key()
 	n := nAssign
 	if !cs.Ok {
@@ -88,29 +106,19 @@ func (c *Ctx) runSymCase(cs *sym.Case, idx, nAssign int) {
 		res := sym.Run(cs, env)
 		switch res.Verdict {
 		case sym.Skipped:
-			c.mu.Lock()
-			c.Skipped++
-			c.mu.Unlock()
+			c.Skipped()
 			continue
 		case sym.Pass:
 			c.Count(key, !cs.Trivial())
 			c.AddInt("element_comparisons", res.Checked)
 		case sym.Known:
 			c.Count(key, !cs.Trivial())
-			kf := c.Known(res.Deviation)
-			if kf == nil {
-				c.Violate(fmt.Sprintf("%s %s: gradient equals the deviation %q, which is not a listed finding for %s", cs.Fam, cs.Name, res.Deviation, c.Prop),
-					SymWitness{Case: cs, Assign: env, Detail: res.Detail})
-				return
-			}
-			c.SawKnown(kf)
+			c.Known(res.Deviation, fmt.Sprintf("%s %s", cs.Fam, cs.Name), SymWitness{Case: cs, Assign: env, Detail: res.Detail})
 		case sym.Violation:
 			// verdicts only from reproducible real-code behaviour: run it once more
 			again := sym.Run(cs, env)
 			if again.Verdict != sym.Violation {
-				c.mu.Lock()
-				c.Extra["unreproduced"] = fmt.Sprintf("%s: %s", cs.Name, res.Detail)
-				c.mu.Unlock()
+				c.Extra("unreproduced", fmt.Sprintf("%s: %s", cs.Name, res.Detail))
 				continue
 			}
 			c.Count(key, !cs.Trivial())
